@@ -74,7 +74,7 @@ def maker(draw):
     # mutations of the copy are required to leave the captured value alone
     muts = [m for m in MUTS[t] if not (t in ("vec", "map") and ("[0]" in m or "[1]" in m or "e +=" in m or "[\"a\"]" in m or "[\"k\"]" in m))]
     return {"arg": arg, "t": t, "decl": draw(st.sampled_from(["var y = x", "auto y = x", "var y := x", "var &y = x"])), "mut": draw(st.sampled_from(muts)),
-            "direct": draw(st.booleans()), "calls": draw(st.integers(3, 5))}
+            "direct": draw(st.booleans()), "calls": draw(st.integers(3, 5)), "wrap": draw(st.sampled_from([None, None, "vec", "map", "map2"]))}
 
 
 @st.composite
@@ -148,6 +148,12 @@ def check_makers(c, ctx):
     for i, m in enumerate(c["makers"]):
         mut = m["mut"].replace("N", "x" if m["direct"] else "y")
         inner = ("try { %s } catch(e) { rec(\"E\") }; x" % mut) if m["direct"] else ("%s; try { %s } catch(e) { rec(\"E\") }; y" % (m["decl"], mut))
+        if m.get("wrap"):
+            # the captured value is put into an inline Vector / Map (which copies it) and the *element* is changed in place
+            elem = {"vec": "y[0]", "map": "y[\"k\"]", "map2": "y[\"k\"]"}[m["wrap"]]
+            lit = {"vec": "[x]", "map": "[\"k\": x]", "map2": "[\"a\": 1, \"k\": x]"}[m["wrap"]]
+            emut = {"str": "E += \"!\"", "int": "E += 1", "flt": "E += 0.5", "bool": "E = !E", "vec": "E.push_back(9)"}[m["t"]].replace("E", elem)
+            inner = "var y = %s; try { %s } catch(e) { rec(\"E\") }; [%s, x]" % (lit, emut, elem)
         text += "def mk%d(x) { return fun[x]() { %s } }\nvar c%d = mk%d(%s)\n" % (i, inner, i, i, m["arg"])
     eid = ctx.request({"cmd": "new", "opt": True})["id"]
     try:
@@ -157,7 +163,7 @@ def check_makers(c, ctx):
         ctx.nontrivial(text)
         ctx.classify("family", "closure_makers")
         for i, m in enumerate(c["makers"]):
-            if m["direct"] or m["decl"].startswith(("var y :=", "var &y")):
+            if not m.get("wrap") and (m["direct"] or m["decl"].startswith(("var y :=", "var &y"))):
                 continue          # the closure deliberately mutates its own captured state: successive calls differ by design
             firsto = None
             seen = 0
@@ -170,7 +176,7 @@ def check_makers(c, ctx):
                     firsto = o
                 elif o != firsto:
                     raise Violation("call #%d of a closure that copies its captured value (`%s`) differs from call #0: %s vs %s" % (
-                        k, m["decl"], o.get("res") or o.get("exc"), firsto.get("res") or firsto.get("exc")), {"program": text + "c%d()" % i})
+                        k, m["decl"] if not m.get("wrap") else "inline container " + m["wrap"], o.get("res") or o.get("exc"), firsto.get("res") or firsto.get("exc")), {"program": text + "c%d()" % i})
     finally:
         try:
             ctx.request({"cmd": "del", "id": eid})
